@@ -255,6 +255,28 @@ def gen(tier: str, seed: int):
                         y.extra = y.extra.replace("Tdoc", "Tedited").replace("Tres", "Tresedited")
                 variants.append(("edit-documentation-of-all-other-modules", p2))
             groups.append((f"g{i}-{m.name}", base, m, variants, (["-nc"] if i % 2 else []) + (forced or noise_opts(seed, PID, i))))
+    # one private base class (methods with Literal | None, foreign and package types) shown in public subclasses that
+    # live in modules unrelated to each other: what is rendered for one of them must not depend on the others
+    for j in range(1 if tier == "quick" else 6):
+        base = pg.Pkg()
+        shared = pg.Mod(("pk",), "shared_base", imports=["from typing import Literal, Optional", "from pathlib import Path"], decls=[
+            pg.Cls("Marker"),
+            pg.Cls("_Base", methods=[
+                pg.Fn("inherited_mode", [pg.Param("mode", "Literal['fast'] | None", "None"), pg.Param("level", "Optional[Literal[3]]", "None")], "Literal['ok'] | None", role="inst"),
+                pg.Fn("inherited_path", [pg.Param("p", "Path"), pg.Param("m", "Marker")], "Marker", role="inst"),
+            ]),
+        ])
+        subs = []
+        for nm_ in ("aa_first", "alpha", "beta", "zz_last"):
+            subs.append(pg.Mod(("pk",), nm_, imports=["from pk.shared_base import _Base"], decls=[pg.Cls(nm_.title().replace("_", ""), bases=["_Base"], methods=[pg.Fn(f"own_{nm_}", role="inst")])]))
+        base.modules += [shared, *subs]
+        for m in subs[1:3]:
+            variants = []
+            for drop in (("aa_first",), ("beta", "zz_last") if m.name == "alpha" else ("alpha", "zz_last"), ("aa_first", "zz_last")):
+                p = copy.deepcopy(base)
+                p.modules = [y for y in p.modules if y.name not in drop]
+                variants.append((f"remove-sibling-subclass-modules:{'+'.join(drop)}", p))
+            groups.append((f"shared-base{j}-{m.name}", base, m, variants, [["-nc"], [], ["--docstyle", "numpydoc"]][j % 3]))
     return groups
 
 
